@@ -698,6 +698,12 @@ func (fr *Frame) specHelper(name string, fn *ssa.Function, args []Val, pos token
 		}
 		cur := fr.load(args[0], mt, pos, false).T
 		return Val{T: Not(Eq(cur, zeroOfSort(cur.S)))}, true
+	case "vcIf":
+		a, b := args[1].term(), args[2].term()
+		if a == nil || b == nil {
+			unsupported("vcIf on non-term values")
+		}
+		return Val{T: Ite(args[0].T, a, b)}, true
 	case "vcSame":
 		a, b := args[0].term(), args[1].term()
 		if a == nil || b == nil {
